@@ -190,7 +190,7 @@ def closure : Nat → List St → List St → List St
   | 0, acc, _ => acc
   | _, acc, [] => acc
   | n + 1, acc, s :: todo =>
-    let new := (tauSucc s).filter fun t => !(acc.contains t) && !(todo.contains t)
+    let new := (tauSucc s).filter fun t => !(acc.contains t)
     let new := new.foldl insertNew []
     closure n (acc ++ new) (todo ++ new)
 
